@@ -72,7 +72,9 @@ Definition polling_pc (p : ppc) : bool :=
 (** ... and [enter] has not returned. *)
 Definition entering_pc (p : ppc) : bool :=
   match p with PEnterH | PEnterT | PEnterFlags | PInKernel => true | _ => false end.
-(** The previous poll has returned (or none was made), [set_polling(true)] not yet done. *)
+(** The previous poll has returned (or none was made), [set_polling(true)] not yet done. At the
+    remaining points (PLoadCqT2, PStoreHead, PEndWbH, PEndWbT, PEndWbTry: bit 0 already cleared,
+    the poll not yet returned) a wake-up may be owed whatever the state word is. *)
 Definition before_pc (p : ppc) : bool :=
   match p with PIdle | PLoadCqT | PSetPolling => true | _ => false end.
 (** A waker whose [fetch_or] saw "polling, not awoken" and that has not published its message. *)
@@ -296,7 +298,16 @@ Proof.
   - (* PLoadCqT2 *)
     inv_destruct HI. rewrite Epp in *. unfold Inv; proj.
     splits; try assumption; intros; discriminate.
-  - (* PStoreHead: the poll returns, nothing is owed any more *)
+  - (* PStoreHead *)
+    inv_destruct HI. rewrite Epp in *. unfold Inv; proj.
+    splits; try assumption; intros; discriminate.
+  - (* PEndWbH *)
+    inv_destruct HI. rewrite Epp in *. unfold Inv; proj.
+    splits; try assumption; intros; discriminate.
+  - (* PEndWbT *)
+    inv_destruct HI. rewrite Epp in *. unfold Inv; proj.
+    splits; try assumption; intros; discriminate.
+  - (* PEndWbTry: the poll returns, nothing is owed any more *)
     inv_destruct HI. rewrite Epp in *. unfold Inv; proj.
     splits; try assumption; intros; discriminate.
 Qed.
@@ -655,7 +666,7 @@ Definition ppc_eqb (a b : ppc) : bool :=
   | PIdle, PIdle | PLoadCqT, PLoadCqT | PSetPolling, PSetPolling | PEnterH, PEnterH
   | PEnterT, PEnterT | PEnterFlags, PEnterFlags | PInKernel, PInKernel | PWbH, PWbH
   | PWbT, PWbT | PWbTry, PWbTry | PClearPolling, PClearPolling | PLoadCqT2, PLoadCqT2
-  | PStoreHead, PStoreHead => true
+  | PStoreHead, PStoreHead | PEndWbH, PEndWbH | PEndWbT, PEndWbT | PEndWbTry, PEndWbTry => true
   | _, _ => false
   end.
 
@@ -723,7 +734,8 @@ Definition wake_schedule_default : list ev :=
   ++ [W 0; W 0]                                         (* enter: load head, load tail + syscall *)
   ++ [P]                                                (* the blocked enter returns *)
   ++ [W 0; W 0; W 0]                                    (* the waker's wake_blocked_futures *)
-  ++ [P; P; P; P; P; P].                                (* wbf, swap(NOT_POLLING), reload, store head *)
+  ++ [P; P; P; P; P; P]                                 (* wbf, swap(NOT_POLLING), reload, store head *)
+  ++ [P; P; P].                                         (* wake_blocked_futures at the end; returns *)
 
 (** Kernel-thread mode: the waker only publishes; the kernel thread consumes and the blocked
     poller is resumed although the waker has not called [enter] yet. *)
@@ -733,11 +745,11 @@ Definition wake_schedule_kthread : list ev :=
   ++ [W 0; W 0; W 0; W 0; W 0; W 0; W 0]
   ++ [P]
   ++ [W 0; W 0; W 0; W 0]
-  ++ [P; P; P; P; P; P].
+  ++ [P; P; P; P; P; P] ++ [P; P; P].
 
 (** Single issuer: the message is posted synchronously inside the step of the [fetch_or]. *)
 Definition wake_schedule_single : list ev :=
-  [P; P; P; P; P] ++ [W 0] ++ [P] ++ [P; P; P; P; P; P].
+  [P; P; P; P; P] ++ [W 0] ++ [P] ++ [P; P; P; P; P; P] ++ [P; P; P].
 
 Definition blocked_then_woken (m : mode) (es : list ev) (nblock : nat) : Prop :=
   valid (init m 1 [1%nat]) es
@@ -788,7 +800,7 @@ Definition strict_schedule : list ev :=
   ++ [W 0; W 0; W 0; W 0; W 0; W 0; W 0; W 0; W 0; W 0] (* waker 0: 01 -> 11, posts, enters *)
   ++ [P]                                                (* poll 1's enter returns *)
   ++ [W 1]                                              (* waker 1: fetch_or at 11, returns at once *)
-  ++ [P; P; P; P; P; P]                                 (* poll 1 clears both bits, returns *)
+  ++ [P; P; P; P; P; P; P; P; P]                        (* poll 1 clears both bits, returns *)
   ++ [W 0; W 0; W 0]                                    (* waker 0 finishes *)
   ++ [P; P; P; P; P].                                   (* poll 2 blocks *)
 
